@@ -59,6 +59,23 @@ pub fn c14(tier: &str, seed: u64) -> Vec<Case> {
         let mut d: Vec<(Vec<u8>, String)> = vec![(vec![], "empty".into())];
         for len in 1..13 { d.push((r.bytes(len), "short".into())); }
         d.extend(hostile_messages(tier, seed ^ 0xD4).into_iter().filter(|(b, _)| b.len() <= 9000).take(if thorough { 40000 } else { 6000 }));
+        // pointer structures hidden in the transaction id or in opaque RDATA, reached through a legal
+        // backward pointer; OPT records whose RDLENGTH overruns the datagram
+        for a in [0xC0u8, 0x00, 0x01] { for b in [0x00u8, 0x01, 0x0C] { for low in [0u8, 1] {
+            d.push((vec![a, b, 0, 0, 0, 1, 0, 0, 0, 0, 0, 0, 0xC0, low, 0, 1, 0, 1], "hidden-pointer-structure".into()));
+            d.push((vec![a, b, 0x84, 0, 0, 0, 0, 1, 0, 0, 0, 0, 0xC0, low, 0, 1, 0, 1, 0, 0, 0, 9, 0, 4, 1, 2, 3, 4], "hidden-pointer-structure".into()));
+        } } }
+        for junk in [[0xC0u8, 0x19, 0, 0], [0xC0, 0x1A, 0xC0, 0x19], [0xC0, 0x17, 0xC0, 0x17]] {
+            let mut m = vec![0u8, 0, 0x84, 0, 0, 0, 0, 2, 0, 0, 0, 0, 0, 0, 1, 0, 1, 0, 0, 0, 0, 0, 4];
+            m.extend_from_slice(&junk);
+            for target in [23u8, 25] { let mut m2 = m.clone(); m2.extend_from_slice(&[0xC0, target, 0, 1, 0, 1, 0, 0, 0, 0, 0, 4, 1, 2, 3, 4]); d.push((m2, "hidden-pointer-structure".into())); }
+        }
+        for extra in [1u16, 4, 100, 60000] { for flags in [0u8, 0x84] {
+            let mut m = vec![0u8, 7, flags, 0, 0, 0, 0, 0, 0, 0, 0, 1, 0, 0, 41, 4, 0, 0, 0, 0, 0];
+            m.extend_from_slice(&(4 + extra).to_be_bytes());
+            m.extend_from_slice(&[0, 10, 0, 0]);
+            d.push((m, "opt-overrun".into()));
+        } }
         d
     };
     let mut it = 0usize;
@@ -67,7 +84,9 @@ pub fn c14(tier: &str, seed: u64) -> Vec<Case> {
         // a store holding arbitrary records, some with hostile names, some matching the datagram's questions
         let mut ops = String::new();
         let mut mgr: ResourceRecordManager<'static> = ResourceRecordManager::new();
-        let qnames: Vec<Name<'static>> = Packet::parse(&d).map(|p| p.questions.iter().map(|q| q.qname.clone().into_owned()).collect()).unwrap_or_default();
+        watch(&format!("parse {}", text::hex(&d)));
+        let dq = d.clone();
+        let qnames: Vec<Name<'static>> = std::panic::catch_unwind(move || Packet::parse(&dq).map(|p| p.questions.iter().map(|q| q.qname.clone().into_owned()).collect::<Vec<_>>()).unwrap_or_default()).unwrap_or_default();
         for _ in 0..r.below(4) {
             let mut rr = if r.chance(1, 2) { g.rr_of(*r.pick(&[0usize, 1, 8, 13, 16])) } else { ResourceRecord::new(hostile_name(&mut r), CLASS::IN, 60, RData::A(A { address: 1 })) };
             if !qnames.is_empty() && r.chance(1, 2) { rr.name = r.pick(&qnames).clone(); }
@@ -119,23 +138,21 @@ pub fn c14(tier: &str, seed: u64) -> Vec<Case> {
             if out.contains("cached 0") == false && res.is_ok() { c = c.tag("ingested"); }
             v.push(c);
             // the async ingestion path must agree with the sync one
-            if let Ok(packet) = Packet::parse(&d) {
-                if packet.has_flags(PacketFlag::RESPONSE) {
-                    let rt = tokio::runtime::Builder::new_current_thread().build().unwrap();
-                    let mut store2: ResourceRecordManager<'static> = ResourceRecordManager::new();
-                    store2.add_authoritative_resource(own_ptr.clone());
-                    let r2 = std::panic::catch_unwind(std::panic::AssertUnwindSafe(|| {
-                        rt.block_on(async { let mut ch = None; simple_mdns::verif::async_add_response_to_resources(packet, &sname, &fname, &mut store2, &mut ch).await; });
-                        sorted(store2.get_domain_resources(&sname, DomainResourceFilter::cached()).flatten().map(text::rr).collect())
-                    }));
-                    let mut c2 = Case::oracle_only().tag("async-ingest");
-                    match (r2, &res) {
-                        (Err(_), _) => { c2 = c2.fail("discovery-panic", "async ingestion panicked".into()); }
-                        (Ok(a), Ok((_, b))) => if a != *b { c2 = c2.fail("async-differs", "async and sync ingestion cache different records".into()); },
-                        _ => {}
-                    }
-                    v.push(c2);
-                }
+            let dd2 = d.clone();
+            let (sn2, fn2, ptr2) = (sname.clone(), fname.clone(), own_ptr.clone());
+            let r2 = std::panic::catch_unwind(std::panic::AssertUnwindSafe(move || -> Option<String> {
+                let packet = Packet::parse(&dd2).ok()?;
+                if !packet.has_flags(PacketFlag::RESPONSE) { return None; }
+                let rt = tokio::runtime::Builder::new_current_thread().build().unwrap();
+                let mut store2: ResourceRecordManager<'static> = ResourceRecordManager::new();
+                store2.add_authoritative_resource(ptr2);
+                rt.block_on(async { let mut ch = None; simple_mdns::verif::async_add_response_to_resources(packet, &sn2, &fn2, &mut store2, &mut ch).await; });
+                Some(sorted(store2.get_domain_resources(&sn2, DomainResourceFilter::cached()).flatten().map(text::rr).collect()))
+            }));
+            match (r2, &res) {
+                (Err(_), _) => { v.push(Case::oracle_only().tag("async-ingest").fail("discovery-panic", "async ingestion panicked".into())); }
+                (Ok(Some(a)), Ok((_, b))) => { let mut c2 = Case::oracle_only().tag("async-ingest"); if a != *b { c2 = c2.fail("async-differs", "async and sync ingestion cache different records".into()); } v.push(c2); }
+                _ => {}
             }
         }
     }
